@@ -10,7 +10,7 @@ import (
 )
 
 func init() {
-	register(&Rule{ID: "OWN-global", Props: []string{"C20", "C17"}, Min: 30,
+	register(&Rule{ID: "OWN-global", Props: []string{"C20", "C17", "C09", "C10", "C15", "C16"}, Min: 30,
 		Doc: "O: no package-level variable of the core packages is stored to, and no map/slice/struct reachable through one is updated, outside package initialisation; no package-level variable has a synchronisation/cache type (sync.*, atomic.*): runtimes share no mutable state through globals",
 		Run: ruleOwnGlobal})
 	register(&Rule{ID: "OWN-node", Props: []string{"C01", "C17", "C20"}, Min: 30,
